@@ -897,8 +897,24 @@ class Interp:
         raise Unsupported("starred expression in this position")
 
     def e_JoinedStr(self, e, env):
-        # content of f-strings / messages is dropped (documented); sub-expressions are not evaluated
-        return "<fstring>"
+        # f-strings are evaluated when every interpolated value is a concrete str/number (they are used to
+        # build dictionary keys such as f"{k}_left"); anything else (messages with tensors etc.) becomes "<?>"
+        out = []
+        for v in e.values:
+            if isinstance(v, ast.Constant):
+                out.append(str(v.value))
+            elif isinstance(v, ast.FormattedValue):
+                try:
+                    val = self.eval(v.value, env)
+                except (RaisedEx, Unsupported):
+                    val = "<?>"
+                if isinstance(val, (str, int, float, bool, type(None))) and v.format_spec is None and v.conversion == -1:
+                    out.append(format(val))
+                else:
+                    out.append("<?>")
+            else:
+                out.append("<?>")
+        return "".join(out)
 
     def e_Yield(self, e, env):
         ee = env
